@@ -116,6 +116,14 @@ func (g *Gen) Str(d int) string {
 		func(d int) string { return `(` + g.Str(d) + ` ~> $uppercase())` },
 		func(d int) string { return `(` + g.Str(d) + ` ~> $uppercase() ~> $pad(10))` },
 		func(d int) string { return `(` + g.Str(d) + ` ~> $substringBefore("z"))` },
+		// chains into a bare function value (no call syntax on the right)
+		func(d int) string { return `(` + g.Str(d) + ` ~> $uppercase)` },
+		func(d int) string { return `(` + g.Str(d) + ` ~> $trim ~> $uppercase ~> $lowercase)` },
+		func(d int) string { return g.pick("name", "nest.c", "one.k") + `.("` + g.pick("z", "-", "q") + `" ~> $substringBefore)` },
+		func(d int) string { return g.pick("name", "nest.c") + `.(` + g.pick("5", "8", "n") + ` ~> $pad)` },
+		func(d int) string { return `(nosuch ~> ` + g.pick("$uppercase", "$string", "$xid", "$type") + `)` },
+		func(d int) string { return `(` + g.Str(d) + ` ~> $pad(?, 9, "*"))` },
+		func(d int) string { return g.pick("name", "nest.c") + `.$pad(?, "*")(` + g.pick("6", "n + 4") + `)` },
 		// chains into calls of every arity (0..7 explicit arguments)
 		func(d int) string { return `(` + g.Str(d) + ` ~> $pad(8, "-"))` },
 		func(d int) string { return `(` + g.Str(d) + ` ~> $replace("z", "Z", 1))` },
@@ -209,6 +217,20 @@ func (g *Gen) Num(d int) string {
 		func(d int) string { return `(` + g.ArrN(d) + ` ~> $sum() ~> $string() ~> $length())` },
 		func(d int) string { return `$toMillis("2017-01-0` + g.pick("1", "2", "3") + `T00:00:00.000Z")` },
 		func(d int) string { return `$toMillis($fromMillis(` + g.Num(d) + ` * 1000))` },
+		// round trips through ever new pictures (anything that remembers
+		// analysed pictures or layouts is filled and evicted)
+		func(d int) string {
+			comps := []string{"[Y0001]", "[M01]", "[D01]", "[H01]", "[m01]", "[s01]"}
+			seps := []string{"-", "/", " ", ":", ".", "_", ", "}
+			pic := ""
+			for i, c := range comps {
+				if i > 0 {
+					pic += seps[g.R.Intn(len(seps))]
+				}
+				pic += c
+			}
+			return `$toMillis($fromMillis(1510067557000 + ` + g.Num(d) + ` * 1000, "` + pic + `"), "` + pic + `")`
+		},
 		func(d int) string { return `$reduce(` + g.ArrN(d) + `, function($a,$b){$a+$b})` },
 		func(d int) string { return `$count($shuffle(` + g.ArrN(d) + `))` },
 		func(d int) string { return `-(` + g.Num(d) + `)` },
@@ -612,6 +634,16 @@ var Catalogue = []Program{
 	{`$toMillis("2017")`, "num"},
 	{`$toMillis("12:28 07.11.2017", "[H01]:[m01] [D01].[M01].[Y0001]")`, "num"},
 	{`$fromMillis(1510067557121)`, "str"},
+	{`$fromMillis(1510067557121, "[H01]:[m01] [ZZ]", "+0530")`, "str"},
+	{`$fromMillis(1510067557121, "[H01]:[m01] [ZZ]", "+0100")`, "str"},
+	{`$fromMillis(1510067557121, "[H01]:[m01] [ZZ]")`, "str"},
+	{`$fromMillis(1510067557121, "[H01]:[m01] [z]", "-0500")`, "str"},
+	{`$fromMillis(1510067557121, "[H01]:[m01] [z]")`, "str"},
+	{`$fromMillis(1510067557121, "[FNn], [D1o] [MNn] [Y]")`, "str"},
+	{`$fromMillis(1510067557121, "[FNn], [D1o] [MNn] [Y]", "+1400")`, "str"},
+	{`$fromMillis(1510067557121, "[h]:[m01] [PN]", "-1000")`, "str"},
+	{`$fromMillis(1510067557121, "[h]:[m01] [PN]")`, "str"},
+	{`$fromMillis(1510067557121, "[W] [w] [d] [E] [C]")`, "fail"},
 	{`$fromMillis(1510067557121, (), "-0330")`, "str"},
 	{`$replace("abcabc", /b/, "X")`, "str"},
 	{`$replace("abcabc", /b/, "X", 1)`, "str"},
